@@ -93,8 +93,14 @@ impl Grid for BaseGrid {
         // This is the common case for most non-block grid formats, with
         // NTv2 the odd man out. But since we normalize the NTv2 scan order
         // during parsing, we just cruise along here
-        let dlat = self.dlat.abs();
-        let dlon = self.dlon.abs();
+        // The node distances keep their signs: `dlat` is the (normally negative)
+        // distance from one row to the next, `dlon` the (normally positive) distance
+        // from one column to the next. A header with lat_n < lat_s and/or
+        // lon_w > lon_e (which `contains` accepts) describes a grid scanned from
+        // the south and/or the east: `lat_n` and `lon_w` are still the latitude
+        // of the first row and the longitude of the first column
+        let dlat = -self.dlat;
+        let dlon = self.dlon;
 
         // The interpolation coordinate relative to the grid origin
         let rlon = at[0] - self.lon_w;
